@@ -348,7 +348,7 @@ func (h *c07) crashNow(what string) {
 
 func runC07(c *core.RunCtx) {
 	sim := c.Sim
-	h := &c07{c: c, sim: sim, db: "w" + NewTag(), nser: c.Plan.C("nseries", 3), garbage: map[int64]bool{},
+	h := &c07{c: c, sim: sim, db: "w" + NewTag(c), nser: c.Plan.C("nseries", 3), garbage: map[int64]bool{},
 		crashFS: float64(c.Plan.C("crash_fs_pm", 0)) / 1000, crashY: float64(c.Plan.C("crash_y_pm10", 0)) / 10000}
 	pre := func(op, path string) {
 		if !h.armed || h.dead || sim.CurInc() != h.inc {
